@@ -281,7 +281,7 @@ CHECK_DEADLOCK FALSE
 ''' % (tla_set(conn), tla_set(chars), tla_set(weak), consts, tail)
 
 
-def generic_family(run, replay, *, hcv, trace_mod, gen, rules, level, assumptions, rule_text, nontrivial, sanity=None, extra_cov=None, fpfun=None):
+def generic_family(run, replay, *, hcv, trace_mod, gen, rules, level, assumptions, rule_text, nontrivial, sanity=None, extra_cov=None, fpfun=None, pseudo=()):
     """Common pipeline: model check + generate (callback) -> harness -> trace validation -> verdict."""
     bpath = os.path.join(run.dir, 'beh.ndjson')
     if replay:
@@ -292,6 +292,7 @@ def generic_family(run, replay, *, hcv, trace_mod, gen, rules, level, assumption
     else:
         groups, stats = gen(run)
         behs = write_behs(bpath, groups)
+        behs += [dict(p) for p in pseudo]      # cases the harness generates itself (recorded inputs carry the replay data)
     run.build_harness()
     tpath = os.path.join(run.dir, 'trace.ndjson')
     rextra = []
@@ -985,7 +986,7 @@ def robust_family(run, replay=None):
                           rules={'NoPanic': 'C13', 'Answered': 'C13', 'Recovers': 'C13'}, level='model_checking',
                           assumptions=['hc\'s real HTTP server (hap/http.NewServer plus /resource registered as ip_transport.go does) over loopback TCP; the arbitrary part of a message is its body and the protocol state, the HTTP framing is well-formed',
                                        'panics are detected by the standard logger\'s "http: panic serving <addr>" line for the connection under test and by the dropped connection',
-                                       'inside each class the bytes are a few fixed shapes plus seeded random bytes: the "arbitrary bytes" quantifier is sampled (3 variants per scenario in quick, 30 in thorough)'],
+                                       'inside each class the bytes are a few fixed shapes plus seeded random bytes: the "arbitrary bytes" quantifier is sampled (10 variants per scenario in quick - every fixed shape of every class - and 40 in thorough)'],
                           rule_text='every (endpoint, protocol state reached by a prefix of a correct exchange, class of malformed input) triple that is an initial state of Robust.tla, each concretised by several byte strings; after each message a correct handshake on the same connection (at most one rejected start) and on a new connection; distinct = scenario triple; non-trivial = the state is reached by a non-empty correct prefix or the connection is verified',
                           nontrivial=lambda b: b['steps'][0].get('st') not in ('fresh', 'unverified'), extra_cov=extra,
                           fpfun=lambda rule, b, line: '%s/%s,%s,%s' % (rule, line.get('ep'), line.get('st'), line.get('cls')))
@@ -1075,6 +1076,7 @@ def tlv8_family(run, replay=None):
                                        'parser inputs are at most 64 bytes so that TLC evaluates Parse / Get on each of them: random bytes, a 4-letter alphabet, prefixes and single-bit damages of valid serialisations'],
                           rule_text='TLC-generated set-words over 2 tags x 8 model lengths mapped to the real boundary lengths (0, 1, 254, 255, 256, 509, 510, 511), every length 0..1024, every tag 0..255 at the boundary lengths, interleaved and repeated tags, longer values sampled; seeded byte strings as parser input judged line by line by the Parse and Get operators; distinct = abstract word; non-trivial = a value of at least 255 bytes or a repeated tag',
                           nontrivial=lambda b: any(s.get('len', -1) >= 255 or s.get('n', 0) >= 3 for s in b['steps']) or len(b['steps']) > 1, extra_cov=extra,
+                          pseudo=[dict(id=2000000, kind='parser-input', steps=[dict(a='Parse')])],
                           fpfun=lambda rule, b, line: '%s/%s' % (rule, 'len=%s' % ('0' if line.get('len') == 0 else '<255' if line.get('len', 0) < 255 else 'k*255' if line.get('len', 0) % 255 == 0 else '>255') if line.get('ev') == 'set' else 'parse'))
 
 
@@ -1082,7 +1084,7 @@ def tlv8_family(run, replay=None):
 # TLV8 struct marshalling (C17)
 # =====================================================================================================
 
-TLV_SHAPES = ["leafAll", "small", "nested", "withLists", "onlyFloat", "onlyI64", "rtp.SetupEndpoints", "rtp.SetupEndpointsResponse", "rtp.StreamConfiguration",
+TLV_SHAPES = ["leafAll", "small", "nested", "withLists", "lists2", "onlyFloat", "onlyI64", "rtp.SetupEndpoints", "rtp.SetupEndpointsResponse", "rtp.StreamConfiguration",
               "rtp.VideoStreamConfiguration", "rtp.AudioStreamConfiguration", "rtp.StreamingStatus", "rtp.Configuration"]
 
 
